@@ -44,6 +44,8 @@ struct XSock {
     int64_t led_from_app_msgs = 0, led_from_app_bytes = 0, led_to_app_msgs = 0, led_to_app_bytes = 0;
     int64_t last_cnt[8] = {0, 0, 0, 0, 0, 0, 0, 0};
     bool cnt_valid = false;
+    int64_t final_cnt[8] = {0, 0, 0, 0, 0, 0, 0, 0};   // counters read immediately before xcm_close (C17 cross-endpoint agreement)
+    bool final_valid = false;
     uint64_t cnt_calls = 0;        // counter-check opportunities seen (checks are thinned out after the first 150)
     // terminal-state automaton (C06)
     bool saw_eof = false;          // a receive returned 0
